@@ -265,6 +265,8 @@ pub struct FaultCfg {
     pub stall_max_ns: u64,
     /// TCP `bind` fails with EADDRINUSE with this probability (port collisions).
     pub addr_in_use_pm: u32,
+    /// ... but only from this round on (a collision storm that starts late).
+    pub addr_in_use_from_round: u32,
     pub tick_base_ns: u64,
     pub tick_jitter_ns: u64,
 }
@@ -415,6 +417,7 @@ impl Scenario {
                 "stall_pm": self.faults.stall_pm,
                 "stall_max_ns": self.faults.stall_max_ns,
                 "addr_in_use_pm": self.faults.addr_in_use_pm,
+                "addr_in_use_from_round": self.faults.addr_in_use_from_round,
                 "tick_base_ns": self.faults.tick_base_ns,
                 "tick_jitter_ns": self.faults.tick_jitter_ns,
             },
